@@ -117,11 +117,10 @@ func VerifH_C04_CheckpointCoversEverything() {
 //
 //verif:opts nodeadlock preempt=1 threads=8 maxwall=1500 cover=checkpointed,newhead
 func VerifH_C04_CheckpointCoversEverythingParallel() {
-	heads := 1
-	if nd.Thorough() {
-		heads = 2
-	}
-	verifCheckpointScenario(2, heads)
+	// thorough: every history of two events, three sampling outcomes, sampling
+	// range 1..2 (see verifCheckpointScenario); a second starting head on top
+	// of that exceeded the path budget and is not part of the registered tier
+	verifCheckpointScenario(2, 1)
 }
 
 func verifCheckpointScenario(limit, heads int) {
